@@ -4,7 +4,7 @@ with the scenario inputs, let TLC judge it (sharded), map rule violations to ver
 import os, json, random, concurrent.futures as cf
 from verif import *
 
-API = {"deflate": 0, "deflate_stateless": 1, "inflate": 2, "inflate_stateless": 3}
+API = {"deflate": 0, "deflate_stateless": 1, "inflate": 2, "inflate_stateless": 3, "deflate_stateless_multi": 4}
 WRAPS = {"raw": 0, "gzip": 1, "gzip_nohdr": 2, "zlib": 3, "zlib_nohdr": 4}
 
 # ------------------------------------------------------------------ corpus
